@@ -151,7 +151,7 @@ func VF_C03_Document() {
 				c, e := d.GetFromObject(key)
 				err = toErr(e)
 				valid = true
-				if key == "missing" {
+				if _, present := ref[key]; !present {
 					vf.Assert(c == nil, "C03 GetFromObject of a missing key returns nothing")
 				} else {
 					vf.Assert(c != nil && jsonDeepEq(c.GetValue(), ref[key]), "C03 GetFromObject returns the child")
